@@ -7,11 +7,11 @@ import (
 	"os"
 	"runtime"
 	"runtime/debug"
+	"sort"
 	"strings"
+	"sync"
 	"testing"
 	"testing/synctest"
-	"sort"
-	"sync"
 	"time"
 
 	gxtime "github.com/dubbogo/gost/time"
@@ -98,18 +98,18 @@ const TCAddr = "10.0.0.7:8091"
 
 type nopLogger struct{}
 
-func (nopLogger) Debug(v ...interface{})                 {}
-func (nopLogger) Debugf(fmt string, v ...interface{})    {}
-func (nopLogger) Info(v ...interface{})                  {}
-func (nopLogger) Infof(fmt string, v ...interface{})     {}
-func (nopLogger) Warn(v ...interface{})                  {}
-func (nopLogger) Warnf(fmt string, v ...interface{})     {}
-func (nopLogger) Error(v ...interface{})                 {}
-func (nopLogger) Errorf(fmt string, v ...interface{})    {}
-func (nopLogger) Panic(v ...interface{})                 {}
-func (nopLogger) Panicf(fmt string, v ...interface{})    {}
-func (nopLogger) Fatal(v ...interface{})                 {}
-func (nopLogger) Fatalf(fmt string, v ...interface{})    {}
+func (nopLogger) Debug(v ...interface{})              {}
+func (nopLogger) Debugf(fmt string, v ...interface{}) {}
+func (nopLogger) Info(v ...interface{})               {}
+func (nopLogger) Infof(fmt string, v ...interface{})  {}
+func (nopLogger) Warn(v ...interface{})               {}
+func (nopLogger) Warnf(fmt string, v ...interface{})  {}
+func (nopLogger) Error(v ...interface{})              {}
+func (nopLogger) Errorf(fmt string, v ...interface{}) {}
+func (nopLogger) Panic(v ...interface{})              {}
+func (nopLogger) Panicf(fmt string, v ...interface{}) {}
+func (nopLogger) Fatal(v ...interface{})              {}
+func (nopLogger) Fatalf(fmt string, v ...interface{}) {}
 
 type seededReader struct {
 	mu sync.Mutex
